@@ -230,9 +230,8 @@ class Gen:
             if not classes:
                 return self.leaf(dom)
             cls = rng.choice(classes)
-        n = u.ARITY[cls]
-        if rng.random() < 0.04:
-            n = max(0, n + rng.choice([-1, 1]))
+        n = u.ARITY[cls]     # always the declared arity: ParamAttrConstraint.get with a wrong number of constraints is API
+        #                      misuse (it folds to BaseAttr / raises ValueError); the direct constructor is a fixed case
         kids = tuple(self.g_attr(d - 1, u.PARAM_DOM.get((cls, i)) or u.POOL) for i in range(n))
         return ("param", cls, kids)
 
@@ -253,7 +252,7 @@ class Gen:
             cls = rng.choice(pcls)
             p0 = self.g_param(max(d, 1), dom, cls)
             kids = list(p0[2])
-            k = rng.choice([1, 1, 1, 2, 0]) if kids else 0
+            k = rng.choice([1, 1, 2, 2, 0]) if kids else 0
             for i in rng.sample(range(len(kids)), min(k, len(kids))):
                 kids[i] = self.g_attr(d - 1, u.PARAM_DOM.get((cls, i)) or u.POOL)
             alts = [p0, ("param", cls, tuple(kids))]
@@ -1011,6 +1010,36 @@ class Runner:
             return tuple(v)
         return self.syn.mutate(v)
 
+    def crossovers(self, cands, limit=6):
+        rng, u = self.rng, self.u
+        by = {}
+        for a in cands:
+            if isinstance(a, u.ParametrizedAttribute) and len(a.parameters) >= 2:
+                by.setdefault(type(a), []).append(a)
+            elif isinstance(a, u.b.ArrayAttr) and len(a.data) >= 2:
+                by.setdefault(type(a), []).append(a)
+        out = []
+        for cls in sorted(by, key=lambda c: c.__name__):
+            grp = by[cls]
+            if len(grp) < 2:
+                continue
+            for _ in range(3):
+                if len(out) >= limit:
+                    return out
+                p, q = rng.sample(grp, 2)
+                if cls is u.b.ArrayAttr:
+                    n = min(len(p.data), len(q.data))
+                    out.append(u.b.ArrayAttr([rng.choice((p.data[i], q.data[i])) for i in range(n)]))
+                    continue
+                ps = [rng.choice((x, y)) for x, y in zip(p.parameters, q.parameters)]
+                try:
+                    r = cls.new(tuple(ps))
+                    str(r)
+                    out.append(r)
+                except Exception:  # noqa: BLE001 - generator side: the mixture is not a constructible attribute
+                    pass
+        return out
+
     def run_tree(self, tree, c, route, n_rand=10, n_rel=14, flags=None):
         """All single-verification comparisons for one (tree, real constraint).  Returns a dict of observations."""
         from xv import c09_ref as R
@@ -1025,6 +1054,19 @@ class Runner:
                 m.count("witness_synthesised")
             else:
                 m.count("witness_synthesis_failed")
+        # one witness per alternative of a top-level union, and crossovers between witnesses of the same class (a value
+        # that takes each parameter from a different alternative is what an over-eager merge of alternatives accepts)
+        top = tree
+        while top[0] in ("var", "msg", "tvar"):
+            top = top[2] if top[0] != "msg" else top[1]
+        if top[0] == "anyof":
+            for alt in top[1][:4]:
+                w = self.synth_value(alt, {})
+                if w is not None:
+                    wit.append(w)
+        for x in self.crossovers(wit + values):
+            values.append(x)
+            m.count("crossover_values")
         for w in list(wit):
             for _ in range(2):
                 mv = self.mutate_value(tree, w)
@@ -1454,9 +1496,19 @@ def fixed_cases():
 
 
 def job_fixed(mon):
+    from xdsl.irdl import BaseAttr, ParamAttrConstraint
     from xv import c09_ref as R
     rng = random.Random("c09-fixed")
     run = Runner(mon, rng)
+    b = U().b
+    # wrong number of parameter constraints through the dataclass constructor: verify must reject every attribute
+    for cls, kids, tree_kids in ((b.IntegerType, (BaseAttr(b.IntAttr),), (("base", b.IntAttr),)),
+                                 (b.ComplexType, (BaseAttr(b.Float32Type), BaseAttr(b.Float32Type)), (("base", b.Float32Type),) * 2)):
+        obs = run.run_tree(("param", cls, tree_kids), ParamAttrConstraint(cls, kids), "direct-wrong-arity",
+                           n_rand=len(U().POOL), n_rel=60)
+        mon.count("wrong_arity_direct_constructor_cases")
+        if obs["acc"]:
+            raise RuntimeError("harness: reference accepted a wrong-arity ParamAttrConstraint")
     for i, (name, c, tree) in enumerate(fixed_cases()):
         mon.case_idx = None
         mon.count("library_constraints_checked")
@@ -1471,9 +1523,9 @@ def job_fixed(mon):
 def plan(tier, seed):
     jobs = []
     if tier == "quick":
-        nt, ct, ntv, ctv, nh, ch = 32, 130, 8, 110, 8, 260
+        nt, ct, ntv, ctv, nh, ch = 24, 175, 6, 150, 6, 350
     else:
-        nt, ct, ntv, ctv, nh, ch = 56, 1500, 12, 900, 12, 2500
+        nt, ct, ntv, ctv, nh, ch = 64, 4000, 16, 2000, 16, 4000
     for i in range(nt):
         jobs.append({"kind": "tree", "seed": seed * 100003 + i, "cases": ct, "tier": tier})
     for i in range(ntv):
